@@ -14,7 +14,7 @@ from ..report import short_loc
 from . import c05
 
 QUICK = ["default"]
-THOROUGH = ["default", "nostd", "alloc", "unstable", "eio_both", "eio_both_nostd", "eio", "eioa"]
+THOROUGH = ["default", "nostd", "alloc", "unstable", "eio_both", "eio_both_nostd", "eio", "eioa", "default_dbg"]
 
 EXPLANATION = (
     "Decides the drain's protocol: single constructor and size cleared up front (DRN1 a-c,f); in Drain::drop the "
@@ -35,7 +35,16 @@ def run(ctx, progs):
                  ("BACKFILL1", "back-fill on every path to the restore"), ("DRNVIEW1", "un-yielded views bounded by iter, never by range"), ("MOD1", "capacity zero"), ("RANGE1", "bound translation")):
         ctx.rule(r, t)
     ctx.rule("KIND1", "index-kind inference: physical positions and logical indices/lengths are never compared, and never stand in for each other")
+    ctx.rule("SUB1", "no subtraction in the drain code underflows (Drain's index invariant range.start <= iter.start <= iter.end <= range.end <= buf_size is an axiom)")
+    ctx.rule("RIDX1", "implicit range-index / split checks in the drain code")
     for cfg, prog in progs.items():
+        from .. import subrule
+
+        drain_only = lambda s: "Drain" in s or "CircularSlicePtr" in s
+        subrule.report(ctx, prog, cfg, "SUB1", floor=0, only=drain_only)
+        subrule.report(ctx, prog, cfg, "RIDX1", floor=0, only=drain_only)
+        if cfg == "default_dbg":
+            continue  # the debug build only adds the arithmetic of the debug assertions
         drainrules.drn1_abcf(ctx, prog, cfg)
         c05.drn1_de(ctx, prog, cfg)
         c05.dropper1(ctx, prog, cfg)
